@@ -141,6 +141,11 @@ fn replay(path: &PathBuf) -> i32 {
             ctx.known_keys = all.iter().filter(|k| k.is_known && k.property == prop).map(|k| k.key.clone()).collect();
             ctx.foreign_keys = all.iter().filter(|k| k.is_known && k.property != prop && !ctx.known_keys.contains(&k.key)).map(|k| k.key.clone()).collect();
             ctx.panic_only = prop == "C15";
+            if prop == "C15" {
+                // C15's cases run with the message channel attached and log arguments evaluated
+                super::props::mes::ensure_socket(&mut ctx);
+                super::panics::eval_log_args(true);
+            }
             ctx.cycles_only = prop == "C20";
             if v["case"]["regen"]["oracle"] == "long-program" {
                 super::props::longprog::replay(&mut ctx, &v["case"]["regen"]);
